@@ -43,6 +43,7 @@
 #include <xalanc/PlatformSupport/ReusableArenaBlock.hpp>
 #include <xalanc/PlatformSupport/ArenaAllocator.hpp>
 #include <xalanc/PlatformSupport/ReusableArenaAllocator.hpp>
+#include <xalanc/PlatformSupport/XalanArrayAllocator.hpp>
 #include <xercesc/framework/MemoryManager.hpp>
 #undef protected
 #undef private
@@ -171,6 +172,7 @@ struct State
     IMap* map = 0;
     BMap* bmap = 0;
     RAlloc* ra = 0;
+    XALAN_CPP_NAMESPACE::XalanArrayAllocator<long>* aa = 0;
     std::vector<Boxed*> raObjs;          // objects in creation order (0 = destroyed)
     FaultManager* fm = 0;
     BList* list = 0;
@@ -187,7 +189,7 @@ struct State
         deque = 0;
         bvec = new BVec(*fm);
         map = 0; bmap = 0; dql = 0; dqb = 0;
-        ra = 0; raObjs.clear();
+        ra = 0; raObjs.clear(); aa = 0;
         ap[0].release(); ap[1].release(); loose.clear();      // abandoned with their manager
     }
 };
@@ -214,6 +216,22 @@ static std::string showVec(State& s)
     std::ostringstream o;
     o << s.vec->size() << " " << s.vec->capacity() << " :";
     for (size_t i = 0; i < s.vec->size(); ++i) o << " " << (*s.vec)[i];
+    return o.str();
+}
+
+// XalanArrayAllocator<long>: per list entry "free/size" (m_list order), and which entry m_lastEntryFound names
+static std::string showAA(State& s)
+{
+    std::ostringstream o;
+    if (s.aa == 0) return "none";
+    long idx = 0, last = -1;
+    if (s.aa->m_list.m_listHead != 0)
+        for (auto i = s.aa->m_list.begin(); i != s.aa->m_list.end(); ++i, ++idx)
+        {
+            o << " " << (*i).first << "/" << (*i).second->size();
+            if (&*i == s.aa->m_lastEntryFound) last = idx;
+        }
+    o << " last=" << last;
     return o.str();
 }
 
@@ -530,6 +548,23 @@ int main()
                 if (out == "ub") dead = true;
                 std::cout << tail(s, out, showVec(s)) << "\n";
             }
+            else if (a == "aa")
+            {
+                typedef XALAN_CPP_NAMESPACE::XalanArrayAllocator<long> AA;
+                if (b == "new") { s.aa = new AA(*s.fm, size_t(x)); }
+                else if (s.aa == 0) { std::cout << "bad\n"; continue; }
+                else if (b == "alloc") { long* p = s.aa->allocate(size_t(x)); for (long i = 0; i < x; ++i) p[i] = i; }
+                else if (b == "reset") s.aa->reset();
+                else if (b == "clear") s.aa->clear();
+                else if (b == "destroy")
+                {
+                    delete s.aa; s.aa = 0;
+                    std::cout << tail(s, out, "destroyed") << "\n";
+                    continue;
+                }
+                else out = "bad";
+                std::cout << tail(s, out, showAA(s)) << "\n";
+            }
             else if (a == "ap")
             {
                 long y = 0; in >> y;
@@ -780,7 +815,7 @@ int main()
         }
         catch (const Refused&)
         {
-            std::cout << tail(s, "oom", a == "l" ? showList(s) : a == "a" ? (s.arena ? showArena(s, false) : std::string("none")) : a == "d" ? showDeque(s) : a == "bv" ? showBVec(s) : a == "ra" ? (s.ra ? showRA(s) : std::string("")) : a == "ap" ? showAP(s) : a == "m" ? (s.map ? showMap(s) : std::string("")) : a == "mb" ? (s.bmap ? showBMap(s) : std::string("")) : showVec(s)) << "\n";
+            std::cout << tail(s, "oom", a == "l" ? showList(s) : a == "a" ? (s.arena ? showArena(s, false) : std::string("none")) : a == "d" ? showDeque(s) : a == "bv" ? showBVec(s) : a == "ra" ? (s.ra ? showRA(s) : std::string("")) : a == "ap" ? showAP(s) : a == "aa" ? showAA(s) : a == "m" ? (s.map ? showMap(s) : std::string("")) : a == "mb" ? (s.bmap ? showBMap(s) : std::string("")) : showVec(s)) << "\n";
         }
     }
     return 0;
